@@ -100,6 +100,17 @@ CHECKS = {
             'FieldInspector/ValueFormatter entries and the GUI are outside the model.',
             'TLC model checking of the recorder/codec specification; transition-covering replay; TLC validation of real recordings and renderings',
             'DESIGN.md section 4, C15'),
+    'C16': ('model_checking',
+            'TLC explores the implementation-shaped registers of Axi2Reg and Reg2Axi (Axi.tla) under every schedule of '
+            'start/reset/done/load pulses, peer VALID/READY and three data values (done only after a completed transfer) and checks '
+            'every clause of the statement (ready iff active, holds last beat with loaded, VALID stable until accepted or reset, data is '
+            'the latest load, LAST = VALID, constant KEEP, sent only after an accepted beat). One input history per transition of the '
+            'reachable graphs is replayed on the real adapters at stream/register widths 8/8, 32/16, 64/64 (and 64/5); the per-cycle '
+            'observations are judged by TLC clause by clause (Trace_Axi); seeded random schedules of 300-1000 cycles as well.',
+            'a transfer coinciding with reset/done/restart may be kept or cleared (consistently); a load coinciding with an accepted '
+            'beat is unconstrained; three symbolic data values.',
+            'TLC model checking of two register-level FSMs under all schedules; transition-covering replay; TLC trace validation at the property layer',
+            'DESIGN.md section 4, C16'),
 }
 
 PENDING = {}
